@@ -1,5 +1,7 @@
 import VProps.PinC05
 #print axioms V.Pin.C05.function_list
+#print axioms V.Pin.C05.eventV1_eventV1_Redact
+#print axioms V.Pin.C05.eventV2_eventV2_Redact
 #print axioms V.Pin.C05.redactevent__redactEventJSON
 #print axioms V.Pin.C05.redactevent__redactEventJSONV1
 #print axioms V.Pin.C05.redactevent__redactEventJSONV2
